@@ -57,9 +57,10 @@ PROPS['C13']={
                 {'name':'determinism_two_steps','module':'harness.C13','cls':'Determinism','tier_only':'thorough','quick':{},'thorough':{'nlinks':2,'two_steps':True}}]}
 
 PROPS['C15']={
- 'bounds_statement':'in_toto_verify from MIR with the recursive call executed for real (depth 2): sub-layout filed under an authorized / unauthorized key, 1-2 sub-layout signatures with free validity, expired or not, inner links present/absent in the dedicated sub-directory with free validity, decoys in the parent directory; summary compared field by field.',
+ 'bounds_statement':'in_toto_verify from MIR with the recursive call executed for real (depth 2): sub-layout filed under an authorized / unauthorized key, 1-2 sub-layout signatures with free validity, expired or not, inner links present/absent in the dedicated sub-directory with free validity, decoys in the parent directory; summary compared field by field; and a step with two functionaries filing the same sub-layout, each copy checked against its own sub-directory.',
  'assumptions':PIPE_ASSUME,
- 'obligations':[{'name':'sublayout','module':'harness.C15','cls':'Sublayout','quick':{'inner_steps':2},'thorough':{'inner_steps':3}}]}
+ 'obligations':[{'name':'sublayout','module':'harness.C15','cls':'Sublayout','quick':{'inner_steps':2},'thorough':{'inner_steps':3}},
+                {'name':'two_functionaries','module':'harness.C15','cls':'SublayoutTwoFunctionaries','quick':{},'thorough':{}}]}
 
 PROPS['C08']={
  'bounds_statement':'in_toto_verify from MIR with a ghost event log behind the two side-effecting calls (in_toto_run, fs::write): every combination of stage failures (owner signature, expiry, missing / badly signed link, failing step rule) x inspection outcomes (spawn error, any i32 exit status, products, inspection rules) within the shape bound.',
@@ -115,10 +116,12 @@ PROPS['C11']={
  'obligations':[{'name':'link','module':'harness.signed','cls':'SignedBytes','quick':{'what':'link','prop':'C11','nbytes':2},'thorough':{'what':'link','prop':'C11','nbytes':3}},
                 {'name':'layout','module':'harness.signed','cls':'SignedBytes','quick':{'what':'layout','prop':'C11','nbytes':2},'thorough':{'what':'layout','prop':'C11','nbytes':3}}]}
 PROPS['C09']={
- 'bounds_statement':'decided part: (a) Metablock::new, MetablockBuilder::sign and Metablock::verify hand byte-identical strings to the sign / verify primitives for the same link or layout (free string field incl. newline, backslash, quote, controls; free numbers); together with C04 (threshold counting under the ideal-signature oracle) this gives: what the library signs verifies again. NOT decided here: the JSON text round trip (serde_json parser and derive-generated visitors) and the behaviour of the real primitives under bit flips / cross-scheme use (ring, FFI) - these are exercised only by the native replay samples.',
+ 'bounds_statement':'decided part: (a) Metablock::new, MetablockBuilder::sign and Metablock::verify hand byte-identical strings to the sign / verify primitives for the same link or layout (free string field incl. newline, backslash, quote, controls; free numbers); (b) the signed block produced by Metablock::new, serialised (Serializer model), decoded again on the borrowed-text and tree channels (Deserializer model) and verified, hands the verify primitive exactly the bytes that were signed; together with C04 (threshold counting under the ideal-signature oracle) this gives: what the library signs verifies again after the wire trip. NOT decided here: the JSON tokenizer (serde_json text layer, compact vs pretty - exercised by the native replay only) and the behaviour of the real primitives under bit flips / cross-scheme use (ring, FFI) - these are exercised only by the native replay samples.',
  'assumptions':SIGNED_ASSUME,
  'obligations':[{'name':'link','module':'harness.signed','cls':'SignedBytes','quick':{'what':'link','prop':'C09','nbytes':2},'thorough':{'what':'link','prop':'C09','nbytes':3}},
-                {'name':'layout','module':'harness.signed','cls':'SignedBytes','quick':{'what':'layout','prop':'C09','nbytes':1},'thorough':{'what':'layout','prop':'C09','nbytes':2}}]}
+                {'name':'layout','module':'harness.signed','cls':'SignedBytes','quick':{'what':'layout','prop':'C09','nbytes':1},'thorough':{'what':'layout','prop':'C09','nbytes':2}},
+                {'name':'wire_trip_link','module':'harness.signed','cls':'SignedBytes','quick':{'what':'link','prop':'C09','nbytes':1,'wire':True},'thorough':{'what':'link','prop':'C09','nbytes':2,'wire':True}},
+                {'name':'wire_trip_layout','module':'harness.signed','cls':'SignedBytes','quick':{'what':'layout','prop':'C09','nbytes':1,'wire':True},'thorough':{'what':'layout','prop':'C09','nbytes':1,'wire':True}}]}
 
 ADV_TYPES=['rule','rule_short','step','inspection','pubkey','signature','byproducts','link','layout','metablock_link','metablock_layout','predicate_slsa1','predicate_slsa2','predicate_link','statement_link','statement_slsa1','statement_naive']
 PROPS['C14']={
